@@ -248,4 +248,93 @@ def step (s0 : St) (op : Op) : St :=
   | .failPut => { s with failPut := true }
   | .resolve p d => (resolve d s p d).1
 
+
+/-! ## Concurrent publishes: small-step system
+
+`namesys.Publish` = `IPNSPublisher.updateRecord` (takes `p.mu`, reads the current record with
+`GetPublished`, computes the sequence, writes the datastore, releases `p.mu`), then the routing put
+(`PublishIPNSRecord`), then the cache update — the last two OUTSIDE the lock. The steps of one
+publish, and a system of several publishes whose steps interleave arbitrarily. -/
+
+structure Req where
+  k : Nat
+  value : Path
+  ttl : Option Int := none
+  seq : Option Nat := none
+  deriving Repr
+
+/-- the part of `updateRecord` after the read: sequence rule, NewRecord, datastore Put. `cur` is the
+record read earlier. A rejected request (ErrInvalidSequence) makes `namesys.Publish` invalidate. -/
+def pubWrite (s : St) (cur : Option Rec) (r : Req) : St × Option Rec :=
+  match nextSeq cur r.value r.seq with
+  | none => (cacheInvalidate s (Root.name r.k 0), none)
+  | some n =>
+    let rec' : Rec := { value := r.value, seq := n, ttl := max 0 (r.ttl.getD defaultRecordTTL) }
+    ({ s with dstore := aput s.dstore r.k rec' }, some rec')
+
+/-- routing put. `validating` = the store keeps the record with the higher sequence number (what a
+validating store / the DHT does); `false` = plain overwrite. -/
+def routePut (validating : Bool) (store : List (Nat × Rec)) (k : Nat) (rec : Rec) : List (Nat × Rec) :=
+  if validating then
+    match afind store k with
+    | some old => if rec.seq < old.seq then store else aput store k rec
+    | none => aput store k rec
+  else aput store k rec
+
+def pubRoute (validating : Bool) (s : St) (k : Nat) (rec : Rec) : St × PubRes :=
+  if s.failPut then ({ s with failPut := false }, .puterr)
+  else ({ s with store := routePut validating s.store k rec }, .ok)
+
+/-- the tail of `namesys.Publish`: cache fill on success, invalidation on error -/
+def pubFinish (s : St) (r : Req) (res : PubRes) : St :=
+  let key := Root.name r.k 0
+  match res with
+  | .ok =>
+    let optTTL := r.ttl.getD defaultRecordTTL
+    let ttl := if optTTL ≥ 0 then optTTL else defaultResolverCacheTTL
+    if ttl ≤ 0 then cacheInvalidate s key else cacheSet s key r.value ttl
+  | _ => cacheInvalidate s key
+
+inductive PC where
+  | start                       -- before p.mu.Lock()
+  | locked                      -- holds p.mu, has read GetPublished (the value is kept with the lock)
+  | recorded (rec : Rec)        -- updateRecord returned, lock released
+  | routed (res : PubRes)       -- PutValue returned
+  | done (res : PubRes)
+  deriving Repr
+
+structure Conc where
+  st : St
+  lock : Option (Nat × Option Rec) := none   -- holder of p.mu and the record it read
+  pcs : List (Req × PC)
+
+/-- one atomic action of thread `i` (a blocked or finished thread does nothing) -/
+def stepAt (validating : Bool) (c : Conc) (i : Nat) : Conc :=
+  match c.pcs[i]? with
+  | none => c
+  | some (r, pc) =>
+    match pc with
+    | .start =>
+      match c.lock with
+      | some _ => c
+      | none => { c with lock := some (i, getPublished c.st r.k), pcs := c.pcs.set i (r, .locked) }
+    | .locked =>
+      match c.lock with
+      | some (j, cur) =>
+        if j == i then
+          match pubWrite c.st cur r with
+          | (s1, none) => { st := s1, lock := none, pcs := c.pcs.set i (r, .done .badseq) }
+          | (s1, some rec) => { st := s1, lock := none, pcs := c.pcs.set i (r, .recorded rec) }
+        else c
+      | none => c
+    | .recorded rec =>
+      match pubRoute validating c.st r.k rec with
+      | (s1, res) => { c with st := s1, pcs := c.pcs.set i (r, .routed res) }
+    | .routed res => { c with st := pubFinish c.st r res, pcs := c.pcs.set i (r, .done res) }
+    | .done _ => c
+
+def runSched (validating : Bool) (c : Conc) (sched : List Nat) : Conc := sched.foldl (stepAt validating) c
+
+def initConc (s : St) (reqs : List Req) : Conc := { st := s, pcs := reqs.map fun r => (r, PC.start) }
+
 end C29
